@@ -33,15 +33,15 @@ Definition regop_of (o : op) : option regop :=
 Record lentry := LE { le_t : nat; le_gid : nat; le_op : regop; le_ret : ret }.
 
 (* the entry appended by the step of thread t taken from (g, l), if that step is a linearization point:
-   the end of the read window of load / operator T / read / a failing compare_exchange's second read, and
+   the end of the read window of load / operator T / a failing compare_exchange's second read (reads through a
+   handle or inside a read functor are not register operations and leave the register as it is: not logged), and
    the end of every write window of the wrapped object (store, operator=, exchange, a succeeding
    compare_exchange; a write through a handle is logged as a store) *)
 Definition lin_of (t : nat) (g : glob) (l : loc) : option lentry :=
   match at_ l with
   | Run fr (MRead :: rest) (S _) r ok =>
     match fr with
-    | FUse _ => Some (LE t 0 RLoad (RVal (val g)))
-    | FGuard Load gid | FGuard Cast gid | FGuard (ReadF _) gid => Some (LE t gid RLoad (RVal (val g)))
+    | FGuard Load gid | FGuard Cast gid => Some (LE t gid RLoad (RVal (val g)))
     | FGuard (Cas e d) gid =>
       match rest with
       | [MWrite (Priv _) _] => Some (LE t gid (RCas e d) (RCasRes false (val g)))
@@ -183,6 +183,8 @@ Definition shape (g : glob) (t : nat) (lg : list lentry) (l : loc) : Prop :=
     match o with
     | Load | Cast => code = [MCall FID_COPY false; MRead] \/ code = [MRead]
     | Store v | Assign v => code = [MCall FID_ASSIGN false; MWrite Obj (Const v)] \/ code = [MWrite Obj (Const v)]
+    | Modify f => code = [MCall f false; MIncr] \/ code = [MIncr]
+    | ReadF f => code = [MCall f false; MRead] \/ code = [MRead]
     | Exchange v => code = X0 v \/ ((code = X1 v \/ code = X2 v \/ code = X3 v) /\ r = val g)
     | Cas e d =>
       code = [MRead; MReadE e d] \/
@@ -204,6 +206,8 @@ Lemma wop_code_regop cf o gsh code : plain cf = false -> wop_code cf o = Some (g
   match o with
   | Load | Cast => code = [MCall FID_COPY false; MRead]
   | Store v | Assign v => code = [MCall FID_ASSIGN false; MWrite Obj (Const v)]
+  | Modify f => code = [MCall f false; MIncr]
+  | ReadF f => code = [MCall f false; MRead]
   | Exchange v => code = X0 v /\ gsh = false
   | Cas e d => code = [MRead; MReadE e d] /\ gsh = false
   | _ => True
@@ -266,7 +270,7 @@ Proof.
     all: repeat match goal with H : _ :: _ = _ :: _ |- _ => inversion H; clear H; subst end.
     all: unfold exec_mi, rd_begin, rd_end, wr_begin, wr_end, cas_branch; rewrite ?Hpl.
     all: try match goal with |- context [existsb ?f ?l] => destruct (existsb f l) end.
-    all: try (destruct ph as [|ph]).
+    all: try (destruct ph as [|[|[|ph]]]).
     all: cbn -[Z.mul Z.add]; rewrite ?Nat.eqb_refl.
     all: try exact I.
     all: try match goal with |- context [?a =? ?b] => destruct (Z.eqb_spec a b) end; cbn -[Z.mul Z.add].
@@ -333,7 +337,7 @@ Proof.
   destruct (exec_mi_fields cf t i ph r ok g) as [Ev [Ei _]]. rewrite Ev. rewrite Ei in Hi. clear Hs Ev Ei.
   destruct i as [fid snap| |[|b] s| |e0 d0]; try exact HL.
   - (* MRead *) destruct ph as [|ph]; [exact HL|].
-    destruct fr as [o gid|a]; [|econstructor; [exact HL|reflexivity]].
+    destruct fr as [o gid|a]; [|exact HL].
     destruct o; try exact HL; try (econstructor; [exact HL|reflexivity]).
     destruct rest as [|[| |[|b] s| |] [|]]; try exact HL.
     econstructor; [exact HL|]. cbn [le_op le_ret reg_apply].
